@@ -1,10 +1,12 @@
 // Engine A: plan interpreter and seeded plan generator.
 #include "run.h"
 #include <algorithm>
+#include <set>
 
 namespace A {
 
 uint64_t g_run_index = 0;
+std::set<uint64_t> *g_sites = nullptr;
 
 void set_fatal_ctx(const Ctx &c, const Op &op) {
     simrt::fatal_context("prop=C%02d i=%llu runseed=%llu step=%d site=%s", c.prop, (unsigned long long)g_run_index, (unsigned long long)c.plan->k.seed, c.step,
@@ -42,7 +44,7 @@ RunResult run_plan(const Plan &plan, Stats *total, bool want_allocs) {
         c.step = (int)i; c.skipped = false; c.budget_bytes = 0; c.site = op_name(op.kind); c.op_allocs = 0;
         set_fatal_ctx(c, op);
         if (!exec_op(c, op)) { set_viol(c, "internal", std::string("no executor for op ") + op_name(op.kind)); break; }
-        if (!c.skipped) { rs.ops++; }
+        if (!c.skipped) { rs.ops++; if (g_sites) { simrt::Hash sh; sh.str(c.site.c_str()); g_sites->insert(sh.h); } }
         if (want_allocs) { rr.allocs.push_back(c.op_allocs); rr.skipped.push_back(c.skipped ? 1 : 0); }
         set_fatal_ctx(c, op);
         check_all(c);
